@@ -83,9 +83,14 @@ func (s *singleWidthIndex) Unmarshal(r io.Reader) error {
 		return err
 	}
 
-	buf := make([]byte, dataLen)
-	if _, err := io.ReadFull(r, buf); err != nil {
+	// Do not trust dataLen for the allocation: it comes straight from the (possibly corrupt or
+	// hostile) index. Let the buffer grow with the bytes that are actually there.
+	buf, err := io.ReadAll(io.LimitReader(r, int64(dataLen)))
+	if err != nil {
 		return err
+	}
+	if uint64(len(buf)) != dataLen {
+		return io.ErrUnexpectedEOF
 	}
 	s.index = buf
 	return nil
